@@ -66,6 +66,7 @@ fn check_pairs(ps: Pairs<Rule>, f: &[T], input: &str, depth: usize) -> Result<()
             let p = p.ok_or("iterator ended early")?;
             same(&p, t, input)?;
         }
+        if it.len() != 0 || it.size_hint() != (0, Some(0)) || !it.is_empty() { return Err(format!("after draining (walk mode {}): len()={} size_hint={:?} is_empty={}", mode, it.len(), it.size_hint(), it.is_empty())); }
         if it.next().is_some() || it.next_back().is_some() { return Err("iterator yields after the end".into()); }
     }
     // peek, tokens, flatten
